@@ -32,6 +32,7 @@ T = [
  ("fix: un-parsing semantic CoAP options mis-encodes", ["C19"], "length 12 -> OverflowError, delta 13 without extended byte, 16-bit extensions little-endian, empty value field emitted"),
  ("fix: PacketParser.unparse reads .id", ["C19"], "AttributeError on (id, value) tuples; payload entry dropped"),
  ("fix: the front end compresses for the uplink direction", ["C15", "C18"], "SCHC.compress used the Up/Bi descriptors, SCHC.decompress all descriptors: a rule with a Dw descriptor did not round-trip through the front end (found by the C15 check under seed 2)"),
+ ("fix: looking up a SCHC packet in an empty rule set", ["C11", "C15", "C20"], "Ruler([]).match_schc_packet(Buffer(b'\\x12', 8)) raised UnboundLocalError (loop variable read after a loop that never ran); a context without rules made ContextManager.decompress and the front end fail instead of falling through (the proof of c11_none needed the hypothesis rules <> [], which sent us to run the code there)"),
  ("fix: compute the UDP checksum after the checksum of an SCTP packet", ["C09", "C01"], "UDP datagram to port 132 carrying an SCTP packet (predictive parsers), rule computing both the UDP and the SCTP checksum: the UDP checksum was computed over the zeroed SCTP checksum placeholder (found when UDP port 132 entered the packet generators)"),
 ]
 log = subprocess.run(['git', '-C', '/repo', 'log', '--reverse', '--format=%h\t%s'], stdout=subprocess.PIPE).stdout.decode().strip().split('\n')
